@@ -124,7 +124,9 @@ def run(ctx):
         bc = basec.get((ty, bs))
         if cid in model:
             want = model[cid].strip()
-            if got != want:
+            if ty in ("biguint", "u64") and want.startswith("-"):
+                pass        # unsigned storage cannot hold the (negative) result: the raw type's own subtraction panics
+            elif got != want:
                 disagreements.append((cid, got, want))
         if k is None or ca is None or cs is None or bc is None or any(x is None for x in bc) or k == 0:
             panics_scoped += 1      # coefficient not representable in this storage type: outside the property's scope
